@@ -1124,3 +1124,13 @@ M('c06_fill_pushback_unconditional', ['C06', 'C15'], ['C06-R2', 'C15-R2'], 'fill
     }
 
     pub(crate) fn fill_with_len_prefix('''))
+
+# round 3 of refactors by sub-agents (after the rule strengthenings of seed rounds 3 and 4)
+NP('n_ref3_broad_modernisation', ALL, 'R17: 14 small edits over 12 functions of lib.rs', 'selftest/neutral/R17.diff')
+NP('n_ref3_public_api', ALL, 'R18: 11 refactors of the public Foca methods', 'selftest/neutral/R18.diff')
+NP('n_ref3_custom_broadcast_path', ALL, 'R19: add_broadcast / handle_custom_broadcasts / count+sections of send_message / broadcast', 'selftest/neutral/R19.diff')
+NP('n_ref3_periodic_timers', ALL, 'R20: shared guard and re-arm helper for the periodic arms, become_connected', 'selftest/neutral/R20.diff')
+NP('n_ref3_handle_data_validation', ALL, 'R21: validation prefix of handle_data split into validate_* helpers', 'selftest/neutral/R21.diff')
+NP('n_ref3_member_probe', ALL, 'R22: member.rs / probe.rs third pass', 'selftest/neutral/R22.diff')
+NP('n_ref3_codecs_payload', ALL, 'R23: codecs through shared generic helpers, payload predicates', 'selftest/neutral/R23.diff')
+NP('n_ref3_identity_fns', ALL, 'R24: change_identity / attempt_rejoin / handle_self_update / set_config third pass', 'selftest/neutral/R24.diff')
